@@ -337,7 +337,7 @@ def run_shard(spec, col):
     if spec['part'] == 'synthetic':
         run_synthetic(spec, col, 500 if quick else 12000)
     else:
-        run_recorded(spec, col, 10 if quick else 300, 30 if quick else 900)
+        run_recorded(spec, col, 24 if quick else 300, 30 if quick else 900)
 
 
 def replay(case, col):
